@@ -194,22 +194,6 @@ theorem full_runBlocks_spec {α β : Type} (f : α → β) (peaks : Int → α) 
     runBlocks fullArith f peaks n b out i = if 0 ≤ i ∧ i < n then f (peaks i) else out i :=
   runBlocks_spec full_good f peaks n b hn hb out i
 
-/-- Wiring of the block loops: which arrays are sliced how, and the order of the stages. -/
-theorem fast_wiring :
-    Gen.fast_slices = [("crop_bufs", ":size"), ("out_centers", "start:stop"),
-      ("out_elevations", "start:stop"), ("out_heights", "start:stop"),
-      ("out_refineds", "start:stop"), ("peaks", "start:stop")] ∧
-    Gen.fast_calls = ["crop_function", "log_scale_cropbufs_inplace", "do_correlations",
-      "evaluate_correlations", "evaluate_upsampling"] := by
-  constructor <;> rfl
-
-theorem full_wiring :
-    Gen.full_slices = [("crop_bufs", ":size"), ("out_centers", "start:stop"),
-      ("out_elevations", "start:stop"), ("out_heights", "start:stop"),
-      ("out_refineds", "start:stop"), ("peaks", "start:stop")] ∧
-    Gen.full_calls = ["crop_function", "evaluate_correlations", "evaluate_upsampling"] := by
-  constructor <;> rfl
-
 /-- `get_buf_count` returns between 1 and the number of peaks … -/
 theorem buf_count_bounds (c n itemsize limit : Int) (hn : 1 ≤ n) :
     1 ≤ Gen.get_buf_count c n itemsize limit ∧ Gen.get_buf_count c n itemsize limit ≤ n := by
